@@ -303,11 +303,17 @@ UNITS = [{
         },
         '::list_ref': {
             'props': L, 'requires': REQ,
+            'body_start': 'proof { if old(vm).stack_spec().sp_spec() >= 3 { axiom_cow_cell_ref(&arg(*old(vm), 2)); } }',
             'ensures': [
                 # element idx is the car of the idx-th tail: a pointer to the stored object itself
                 (['C14'], '''r matches Ok(x) ==> (cell_index(old(vm).heap_spec(), arg(*old(vm), 1)) matches Some(i)
                     && (heap_deref(old(vm).heap_spec(), tail_ptr(old(vm).heap_spec(), arg(*old(vm), 2), i as nat)) matches VCell::Pair(a, d) && x == VCell::Ptr(a)
                         && has_tails(old(vm).heap_spec(), arg(*old(vm), 2), i as nat)))'''),
+                # an index below the number of pairs is never refused
+                (['C14'], '''(arg(*old(vm), 0) == VCell::ArgumentCount(2) && old(vm).stack_spec().sp_spec() >= 3
+                    && (cell_index(old(vm).heap_spec(), arg(*old(vm), 1)) matches Some(i) && has_tails(old(vm).heap_spec(), arg(*old(vm), 2), i as nat)
+                        && heap_deref(old(vm).heap_spec(), tail_ptr(old(vm).heap_spec(), arg(*old(vm), 2), i as nat)) is Pair
+                        && (heap_deref(old(vm).heap_spec(), arg(*old(vm), 2)) is Pair || heap_deref(old(vm).heap_spec(), arg(*old(vm), 2)) is Nil))) ==> r is Ok'''),
             ],
             'inserts': [{'anchor': 'match vm.heap.get(&tail) {', 'where': 'before', 'text': 'proof { axiom_cow_cell_ref(&tail); axiom_cow_cell_ref(&list_ptr); }'}],
         },
